@@ -12,6 +12,7 @@ import ast
 import dataclasses
 import datetime as dt
 import importlib.util
+import itertools
 import json
 import keyword
 import os
@@ -233,13 +234,79 @@ def gen_deep(rng, prof):
     return doc
 
 
+def gen_keyless(rng, prof):
+    """DIMENSION several positions of ONE document whose classes have no key to be named after (objects inside lists of lists get
+    generated names Data<level>): sibling keys of one object, a key next to a nested object that holds another one, sibling objects
+    of a list that each hold some, a root list -- every position with its own object shape, so that two positions which end up
+    with one name cannot both load.  The shapes inside are plain (same keys in sibling objects, one kind per key)."""
+    prof.nulls = 0.0
+    used_fields = set()
+
+    def objs():
+        ks = []
+        for _ in range(rng.randint(1, 3)):
+            k = pick_key(rng, prof, used_fields | set(ks), False)
+            if k is not None:
+                ks.append(k)
+        ks = ks or ['v%d' % len(used_fields)]
+        used_fields.update(ks)                       # every position gets its own field names
+        kinds = {k: rng.choice(['int', 'str', 'bool', 'float']) for k in ks}
+        return [{k: scalar_of(rng, kinds[k]) for k in ks} for _ in range(rng.randint(1, 3))]
+
+    def lol():
+        v = objs()
+        for _ in range(rng.choice([1, 1, 1, 2])):    # [[...]] mostly, sometimes [[[...]]]
+            v = [v]
+        return v
+
+    def holder(n):
+        """an object with n list-of-lists keys, plain scalar keys in between"""
+        out, used = {}, set()
+        for _ in range(n):
+            if rng.random() < 0.4:
+                k = pick_key(rng, prof, used | used_fields, False)
+                if k is not None:
+                    used.add(k)
+                    out[k] = scalar_of(rng, rng.choice(['int', 'str', 'bool']))
+            k = pick_key(rng, prof, used | used_fields, True)
+            if k is not None:
+                used.add(k)
+                out[k] = lol()
+        used_fields.update(used)
+        return out
+
+    layout = rng.choice(['siblings', 'siblings', 'siblings', 'nested-after', 'nested-before', 'in-list', 'root-list', 'bare-root'])
+    if layout == 'siblings':
+        return holder(rng.choice([2, 2, 3])), layout
+    if layout in ('nested-after', 'nested-before'):
+        a, b = holder(rng.choice([1, 1, 2])), holder(1)
+        k = pick_key(rng, prof, set(a) | used_fields, True) or 'inner_obj'
+        doc = dict(a, **{k: b}) if layout == 'nested-after' else dict({k: b}, **a)
+        return doc, layout
+    if layout == 'in-list':
+        k = pick_key(rng, prof, used_fields, True) or 'rows'
+        h = holder(2)
+        # sibling objects with the same keys: the second repeats the shapes of the first
+        return {k: [h, json.loads(json.dumps(h))][:rng.choice([1, 2])]}, layout
+    if layout == 'root-list':
+        h = holder(rng.choice([2, 3]))
+        return [h, json.loads(json.dumps(h))][:rng.choice([1, 2])], layout
+    return [lol()[0] for _ in range(rng.choice([1, 2]))], layout
+
+
 def gen_doc(rng):
     prof = Prof(rng)
-    if rng.random() < 0.1:
+    r0 = rng.random()
+    if r0 < 0.1:
         for a in ('bad_keys', 'uni_keys', 'hetero', 'mixed', 'case_dups', 'underscores', 'clash', 'oddnum'):
             setattr(prof, a, False)
         doc = gen_deep(rng, prof)
         return doc, ['deep'] + prof.flags()
+    if r0 < 0.2:
+        for a in ('bad_keys', 'uni_keys', 'hetero', 'mixed', 'case_dups', 'underscores', 'clash', 'oddnum', 'repeat', 'union_scalars'):
+            setattr(prof, a, False)
+        doc, layout = gen_keyless(rng, prof)
+        return doc, ['keyless', layout]
     depth = rng.choice([1, 2, 2, 3, 3, 4])
     if rng.random() < 0.6:
         t = gen_template(rng, prof, depth, top='o')
@@ -584,58 +651,60 @@ _REAL_SINGULARIZE = [None]
 
 
 def ref_class_names(doc):
-    """class name -> number of class-generating positions of the document that the reference naming gives that name
-    (plus the implicit Data / Container / Data<n> names)"""
+    """class name -> number of distinct class-generating positions of the document that the reference naming gives that name
+    (incl. the implicit Data / Container / Data<level> names).  Reference transcription of the naming as it stands in the
+    unchanged tree: an object under key k is named after k; a list under key k after the singular of k; a list without a key
+    (a list inside a list, an empty key) is named Data<level>, where the level is a counter that every list-valued key of one
+    object and every list element of one list increments *for what follows at that nesting* and that is handed down, never
+    back up.  Sibling objects of one list are merged into one class: positions are told apart by their path without the
+    indices of object elements."""
     from dataclass_wizard.wizard_cli import schema
     sing = _REAL_SINGULARIZE[0] or schema.English.singularize
-    counts = {}
+    where = {}
+    # the merge of sibling objects into one class is defeated where one position holds objects next to other kinds or two keys
+    # share a field name (gs-union-with-class / -list shapes): every occurrence may then surface as a class of its own
+    merged = not (group_shapes(doc) & {'mixed-object', 'mixed-list', 'snake-collision'})
+    occ = itertools.count()
 
-    def add(n):
-        counts[n] = counts.get(n, 0) + 1
+    def add(n, path):
+        where.setdefault(n, set()).add(path if merged else (path, next(occ)))
 
-    def walk(v, name):
-        # `name`: class name objects found directly in this list get
-        if isinstance(v, dict):
-            for k, x in v.items():
-                if isinstance(x, dict):
-                    add(ref_pascal(k))
-                    walk(x, None)
-                elif isinstance(x, list):
-                    nm = ref_pascal(sing(schema.English.humanize(k)).replace(' ', '')) if k else ''
-                    walk_list(x, nm or None)
-        elif isinstance(v, list):
-            walk_list(v, name)
+    def walk_obj(v, lvl, path):
+        for k, x in v.items():
+            if isinstance(x, dict):
+                add(ref_pascal(k), path + (k,))
+                walk_obj(x, lvl, path + (k,))
+            elif isinstance(x, list):
+                lvl += 1
+                nm = ref_pascal(sing(schema.English.humanize(k)).replace(' ', '')) if k else ''
+                walk_list(x, nm or None, lvl, path + (k,))
 
-    def walk_list(xs, nm):
+    def walk_list(xs, nm, lvl, path):
+        if not nm:
+            nm = f'Data{lvl}' if lvl else 'Data'
         if any(isinstance(e, dict) for e in xs):
-            add(nm if nm else 'Data<n>')
-        for e in xs:
+            add(nm, path + ('[]',))
+        for j, e in enumerate(xs):
             if isinstance(e, dict):
-                walk(e, None)
+                walk_obj(e, lvl, path + ('[]',))
             elif isinstance(e, list):
-                walk_list(e, None)
+                lvl += 1
+                walk_list(e, None, lvl, path + (j,))
     if isinstance(doc, dict):
-        add('Data')
-        walk(doc, None)
+        add('Data', ())
+        walk_obj(doc, 0, ())
     else:
-        add('Container')
-        walk_list(doc, 'Data')
-    return counts
+        add('Container', ())
+        walk_list(doc, 'Data', 0, ())
+    return {n: len(ps) for n, ps in where.items()}
 
 
 def dup_explained(doc, dup_names):
     """every duplicated class name of the output is one the reference naming also gives to several positions of the
     document (the same key at different paths, singular/plural or case variants of one name, a key named like the
-    implicit Data / Container / Data<n> classes)"""
-    import re
+    implicit Data / Container / Data<level> classes, two key-less lists that reach the same level on different branches)"""
     counts = ref_class_names(doc)
-    for n in dup_names:
-        c = counts.get(n, 0)
-        if re.fullmatch(r'Data\d+', n):
-            c += counts.get('Data<n>', 0)
-        if c < 2:
-            return False
-    return True
+    return all(counts.get(n, 0) >= 2 for n in dup_names)
 
 
 def union_nodes(tree, out):
@@ -1196,7 +1265,8 @@ def run(ctx: C.Ctx):
     ctx.rule = ('JSON documents from templates (objects/arrays to depth 4; arrays of sibling objects with nulls, missing keys, '
                 'mixed kinds; empty containers; date/time/datetime/number/bool-looking and near-miss strings; keys over identifiers, '
                 'keywords, digits-first, punctuation, unicode, case variants, underscore variants, inflector words, names colliding '
-                'with Data/Container/typing names, repeated names at different paths — each unusual shape enabled per document with '
+                'with Data/Container/typing names, repeated names at different paths, several key-less positions (lists of lists of objects under '
+                'sibling keys / next to nested objects / in sibling objects / at the root) — each unusual shape enabled per document with '
                 'a small probability so that most documents are ones the unchanged generator handles) x 4 flag combinations: source '
                 'vs Lean module AST (ast + line scan), import as a real module, root class loads every source element, inferred '
                 'types, every key has a field, generation twice; A-then-B vs pristine B in forked children of a fresh process; the '
